@@ -674,9 +674,14 @@ class Interp:
         raise Unsupported('static ' + qname)
 
     def eval_const(self, name, st, tenv):
-        outs = list(self.run(name, [], st, tenv))
+        saved = self.unwind
+        self.unwind = max(saved, 4096)          # const bodies run on concrete data and terminate: the symbolic unwinding bound does not apply
+        try:
+            outs = list(self.run(name, [], st, tenv))
+        finally:
+            self.unwind = saved
         if len(outs) != 1 or is_abnormal(outs[0][1]):
-            raise Unsupported(f'const body {name} has {len(outs)} outcomes')
+            raise Unsupported(f'const body {name} has {len(outs)} outcomes' + (f': {outs[0][1]!r:.160}' if outs else ''))
         return outs[0][1]
 
     def _canon(self, crate, path):
